@@ -44,7 +44,9 @@ def defects_back():
         P("D01-back", "C03", d + "01-6f554be.revert.diff", "C03-RC"),
         P("D02-back", "C03", d + "02-3a47dc4.revert.diff", "C03-RZ"),
         P("D17-back", "C01", d + "03-a6fb6b6.revert.diff", "C01-S"),
-        P("D05-back", "C13", d + "04-95f34c2.revert.diff", ["C13-K", "AC5"]),
+        R("D05-back", "C13", QUAD, "                             bck_options=ctx.bck_config, **ctx.bck_config)",
+          "                             fwd_options=ctx.bck_config, bck_options=ctx.bck_config)", ["C13-K", "AC5"],
+          note="the reverse patch of 95f34c2 no longer applies after 9c5a2e8 re-indented the call"),
         P("D06-back", "C13", d + "05-a9a1c0e.revert.diff", "C13-I"),
         P("D08-back", "C13", d + "06-9c5a2e8.revert.diff", "C13-Z"),
         P("D07-back", "C13", d + "07-467c3b6.revert.diff", "AC4"),
@@ -187,9 +189,25 @@ def c08():
     ]
 
 
+def c13():
+    return [
+        R("c13-sign-xl", "C13", QUAD, "            grad_xl = -torch.dot(grad_ys.reshape(-1), fcn(xl, *params).reshape(-1)", "            grad_xl = torch.dot(grad_ys.reshape(-1), fcn(xl, *params).reshape(-1)", "C13-L"),
+        R("c13-xu-at-xl", "C13", QUAD, "            grad_xu = torch.dot(grad_ys.reshape(-1), fcn(xu, *params).reshape(-1)", "            grad_xu = torch.dot(grad_ys.reshape(-1), fcn(xl, *params).reshape(-1)", "C13-L"),
+        R("c13-gate-swapped", "C13", QUAD, "                                 ).reshape(xl.shape) if ctx.xltensor else None", "                                 ).reshape(xl.shape) if ctx.xutensor else None", "C13-L"),
+        R("c13-unpack-swapped", "C13", QUAD, "            if ctx.xltensor and ctx.xutensor:\n                xl, xu = xlxu_tensor", "            if ctx.xltensor and ctx.xutensor:\n                xu, xl = xlxu_tensor", "C13-L"),
+        R("c13-no-create-graph", "C13", QUAD, "                                            create_graph=torch.is_grad_enabled())\n                # tensors that", "                                            create_graph=False)\n                # tensors that", "AC3"),
+        R("c13-no-none-conversion", "C13", QUAD, "                dfdts = convert_none_grads_to_zeros(dfdts, tensor_params)\n", "", "AC4"),
+        R("c13-grad-for-nparams-slot", "C13", QUAD, "            return (None, grad_xl, grad_xu, None, None, None, None, None, *grad_params)", "            return (None, grad_xl, grad_xu, None, None, grad_xu, None, None, *grad_params)", "AC2"),
+        R("c13-quad-drops-objparams", "C13", QUAD, "        return _Quadrature.apply(pfunc, xl, xu, fwd_options, bck_options, nparams,\n                                 dtype, device, *params, *pfunc.objparams())",
+          "        return _Quadrature.apply(pfunc, xl, xu, fwd_options, bck_options, nparams,\n                                 dtype, device, *params)", "AC6"),
+        R("c13-bck-options-only", "C13", QUAD, "                             bck_options=ctx.bck_config, **ctx.bck_config)", "                             bck_options=ctx.bck_config)", "AC5"),
+        R("c13-negative-slice-back", "C13", QUAD, "        tensor_params = ctx.saved_tensors[nxlxu:]", "        tensor_params = ctx.saved_tensors[-ntensor_params:]", "C13-Z"),
+    ]
+
+
 def all_mutants():
     ms = []
-    for f in (defects_back, c01, c02, c03, c04, c08):
+    for f in (defects_back, c01, c02, c03, c04, c08, c13):
         ms += f()
     import importlib
     try:
